@@ -28,10 +28,27 @@ fn penc(p: &RistrettoPoint) -> String {
 
 /// every generator of a parameter set, as bytes
 pub fn describe(bits: usize, cap: usize, t: usize, with_table: bool) -> Value {
+    describe_via(bits, cap, t, with_table, None)
+}
+
+/// `via_statement = Some(m)`: the parameter set is observed after a round trip through a statement of `m` commitments
+/// (`RangeStatement::init(params, ..).generators`), which is the object prover and verifier actually read
+pub fn describe_via(bits: usize, cap: usize, t: usize, with_table: bool, via_statement: Option<usize>) -> Value {
     let pc = ristretto::create_pedersen_gens_with_extension_degree(ext_degree(t));
     let params = match RangeParameters::<RistrettoPoint>::init(bits, cap, pc) {
         Ok(p) => p,
         Err(_) => return json!({"error": "init"}),
+    };
+    let params = match via_statement {
+        None => params,
+        Some(m) => {
+            let r: Vec<Scalar> = (0..t).map(|i| Scalar::from(7u64 + i as u64)).collect();
+            let cs: Vec<RistrettoPoint> = (0..m).map(|j| params.pc_gens().commit(&Scalar::from(j as u64), &r).unwrap()).collect();
+            match RangeStatement::init(params, cs, vec![None; m], None) {
+                Ok(st) => st.generators.clone(),
+                Err(_) => return json!({"error": "statement"}),
+            }
+        },
     };
     let g: Vec<String> = params.gi_base_iter().map(penc).collect();
     let h: Vec<String> = params.hi_base_iter().map(penc).collect();
@@ -177,6 +194,83 @@ pub fn threads(spec: &Value) -> Value {
     }
     let _ = RistrettoPoint::identity();
     json!({"mismatches": mismatches, "calls": nthreads as u64 * reps * ntasks, "baseline_digest": digest(&json!(*baseline))})
+}
+
+/// C18: the result of one `verify_batch` call does not depend on what other threads are doing.  Batches longer than half an internal chunk whose
+/// verdict or error depends on where the batch is cut (an algebraically wrong proof first, a statement of another extension degree last; valid
+/// proofs of two extension degrees) are verified alone, then by several threads at once; every result must be the one obtained alone.
+pub fn batch_race(spec: &Value) -> Value {
+    let nthreads = spec["threads"].as_u64().unwrap_or(4) as usize;
+    let reps = spec["reps"].as_u64().unwrap_or(3);
+    let n = spec["n"].as_u64().unwrap_or(150) as usize;
+    let split = spec["split"].as_u64().unwrap_or(128) as usize;
+    let mk = |t: usize, seed: u64| {
+        let params = RangeParameters::<RistrettoPoint>::init(2, 1, ristretto::create_pedersen_gens_with_extension_degree(ext_degree(t))).unwrap();
+        let mut rng = ChaCha12Rng::seed_from_u64(seed);
+        let v = seed % 4;
+        let r: Vec<Scalar> = (0..t).map(|_| Scalar::random(&mut rng)).collect();
+        let c = params.pc_gens().commit(&Scalar::from(v), &r).unwrap();
+        let st = RangeStatement::init(params, vec![c], vec![None], None).unwrap();
+        let w = RangeWitness::init(vec![CommitmentOpening::new(v, r)]).unwrap();
+        let mut tr = Transcript::new(b"c18-batch");
+        let proof = RangeProof::<RistrettoPoint>::prove_with_rng(&mut tr, &st, &w, &mut rng).unwrap();
+        (st, proof)
+    };
+    // batch A: proof 0 belongs to another statement (refused by the final check only); the last statement has another extension degree
+    let mut a: Vec<(RangeStatement<RistrettoPoint>, RangeProof<RistrettoPoint>)> = (0..n - 1).map(|i| mk(1, i as u64)).collect();
+    let p1 = a[1].1.clone();
+    a[0].1 = p1;
+    a.push(mk(2, 9999));
+    // batch B: valid proofs, extension degree 1 up to `split`, degree 2 after it
+    let b: Vec<(RangeStatement<RistrettoPoint>, RangeProof<RistrettoPoint>)> = (0..n).map(|i| mk(if i < split { 1 } else { 2 }, 20_000 + i as u64)).collect();
+    let run = |batch: &Vec<(RangeStatement<RistrettoPoint>, RangeProof<RistrettoPoint>)>| -> String {
+        let sts: Vec<_> = batch.iter().map(|x| x.0.clone()).collect();
+        let prs: Vec<_> = batch.iter().map(|x| x.1.clone()).collect();
+        let mut trs = vec![Transcript::new(b"c18-batch"); batch.len()];
+        match std::panic::catch_unwind(std::panic::AssertUnwindSafe(|| RangeProof::<RistrettoPoint>::verify_batch(&mut trs, &sts, &prs, VerifyAction::VerifyOnly))) {
+            Ok(Ok(_)) => "ok".to_string(),
+            Ok(Err(e)) => format!("err:{}", e),
+            Err(_) => "panic".to_string(),
+        }
+    };
+    let alone = [run(&a), run(&b)];
+    let batches = Arc::new([a, b]);
+    let alone_arc = Arc::new(alone.clone());
+    let barrier = Arc::new(Barrier::new(nthreads));
+    let hs: Vec<_> = (0..nthreads)
+        .map(|i| {
+            let (bar, batches, alone) = (barrier.clone(), batches.clone(), alone_arc.clone());
+            std::thread::spawn(move || {
+                let run = |batch: &Vec<(RangeStatement<RistrettoPoint>, RangeProof<RistrettoPoint>)>| -> String {
+                    let sts: Vec<_> = batch.iter().map(|x| x.0.clone()).collect();
+                    let prs: Vec<_> = batch.iter().map(|x| x.1.clone()).collect();
+                    let mut trs = vec![Transcript::new(b"c18-batch"); batch.len()];
+                    match std::panic::catch_unwind(std::panic::AssertUnwindSafe(|| RangeProof::<RistrettoPoint>::verify_batch(&mut trs, &sts, &prs, VerifyAction::VerifyOnly))) {
+                        Ok(Ok(_)) => "ok".to_string(),
+                        Ok(Err(e)) => format!("err:{}", e),
+                        Err(_) => "panic".to_string(),
+                    }
+                };
+                let mut bad = vec![];
+                bar.wait();
+                for rep in 0..reps {
+                    for k in 0..2usize {
+                        let which = (k + i) % 2;
+                        let r = run(&batches[which]);
+                        if r != alone[which] {
+                            bad.push(json!({"thread": i, "rep": rep, "batch": if which == 0 { "A" } else { "B" }, "alone": alone[which], "concurrent": r}));
+                        }
+                    }
+                }
+                bad
+            })
+        })
+        .collect();
+    let mut mismatches = vec![];
+    for h in hs {
+        mismatches.extend(h.join().unwrap());
+    }
+    json!({"alone": alone, "mismatches": mismatches, "calls": nthreads as u64 * reps * 2, "n": n, "split": split})
 }
 
 /// C18: the result of requesting Pedersen generators must not depend on the history of earlier requests
